@@ -61,3 +61,136 @@ claim("C20",
       "expanded nodes and label by node_is_minimal.",
       "networkx semantics of add_edge/successors assumed; exactly-once listing additionally needs C01/C14.",
       "DESIGN.md §3 C20")
+
+claim("C01",
+      "def-use and path analysis of the symbolic seed loop (avoid-set protocol), truth-table implication of shortcut guards, "
+      "provenance of attractor-free marks and of sub-diagram variable sets, pruning-guard engine",
+      "Decides necessary structural conditions of 'one seed per attractor': seeds are full states; the exact filter subtracts "
+      "the current candidate before its test and unites every accepted closure into the avoid set; unchecked shortcuts are "
+      "taken only under their sound guards; every 'no attractor here' mark is backed by the source shortcut or by an "
+      "emptiness test of the corresponding sub-diagram node; sub-diagrams are built over regulator-closed sets; nodes with "
+      "partial successor sets must be marked attractor-free (S7 reports the known defect F12 of the source-SCC expansion).",
+      "The mathematics of the NFVS reduction, of the clean-block and SCC arguments and AEON's reachability are assumed; the "
+      "behaviour itself (equality with the network's attractors) is not decided.",
+      "DESIGN.md §3 C01")
+
+claim("C02",
+      "shared engines of C04 (node identity, successor protocol) plus must-pass-through and guard analysis of the edge/motif bookkeeping",
+      "Decides that nodes are created only for percolated spaces not yet present (key and stored space from the same value), "
+      "that single-node expansion feeds the complete maximal-trap-space enumeration of the node into child creation, and that "
+      "every stable motif leading to a child is recorded on the edge and returned (reduced by exactly the parent's fixed variables).",
+      "That the siphon encoding enumerates exactly the maximal trap spaces and that AEON's percolation is right is assumed (C09, C11).",
+      "DESIGN.md §3 C02")
+
+claim("C03",
+      "pruning-guard rule: path conditions of every way a successor can leave the work list unscheduled, decided by truth "
+      "tables against the driver's permitted reasons; provenance of skip-edge trap lists; block-choice comparison",
+      "Decides for all six drivers that a successor / node is dropped only for a permitted reason (seen; no uncovered minimal "
+      "trap below the current node; empty constant-limit probe; disjoint from or strictly inside the target; already expanded), "
+      "that skip edges lead to every minimal trap space inside the skipped node, and that block choice drops a block iff a "
+      "strict sub-block exists.",
+      "Independence of minimal blocks and the SCC sequencing argument are assumed.",
+      "DESIGN.md §3 C03")
+
+claim("C05",
+      "provenance analysis of everything subtracted from a node's search region (candidate computation and symbolic fallback), shared skip-edge rule",
+      "Decides that only a node's own successors ever bound its attractor search (the unsound skip-node reduction, defect "
+      "F13, is reported by this rule and was repaired), that skip edges reach every minimal trap space inside the node, and "
+      "that skip nodes are flagged skipped and expanded.",
+      "Duplicates between overlapping skip nodes are allowed by the property; exactly-once without motif-avoidant attractors "
+      "follows from C03-K + C08 and is not decided separately.",
+      "DESIGN.md §3 C05")
+
+claim("C06",
+      "dominance of the acceptance test over every reported driver set with def-use of the percolated space; must-pass-through "
+      "of the accumulation; truth-table equivalence of the end-node predicate",
+      "Decides that a driver set is reported only if the step's full motif is contained in percolate_space(driver | already "
+      "fixed) of that very set, that each step's percolation is accumulated for the next, and that end nodes are exactly the "
+      "nodes without a 'hot' node among nx.descendants + self, hot = not consistent or (not goal and minimal).",
+      "That LDOI containment forces the dynamics is the theorem behind the method; attractors of the overridden network are not computed.",
+      "DESIGN.md §3 C06")
+
+claim("C07",
+      "guard equivalences (truth tables) in the driver search and result filter, argument-mutation analysis, pruning-guard "
+      "engine for the target-directed expansion, shape of the path/motif enumeration",
+      "Decides that forbidden drivers and the size bound are honoured in both strategies, that supersets of reported sets are "
+      "skipped, that `successful` and the result filter are the stated predicates, that no control function mutates its "
+      "caller's arguments, that target-directed expansion leaves a node unexpanded iff it is disjoint from or strictly inside "
+      "the target, and that successions are the products of reduced motif lists along all simple paths to the end nodes.",
+      "Completeness and minimality as set equalities over run-time values are not decided.",
+      "DESIGN.md §3 C07")
+
+claim("C08",
+      "provenance of every returned list; completeness of limited enumerations proved by exhaustive enumeration of integer "
+      "orderings (path facts + solver contract + loop-carried bounds); drop discipline of the simulation filter",
+      "Decides on every path and option combination that returned candidates are full states drawn from a complete "
+      "enumeration (or a sound filter of one), that a list enumerated with solution_limit=L is consumed only where len<L "
+      "follows, that emptiness is concluded only from complete lists, that enumeration and filters work on the node's own "
+      "reduced net and child motifs, and that the filters drop a state only when it provably reaches another candidate or a child.",
+      "The NFVS reduction theorem and clingo's completeness are assumed; the solver contract len<=limit is decided by C09-T3.",
+      "DESIGN.md §3 C08")
+
+claim("C09",
+      "evaluation of polarity expressions over {0,1} by a small interpreter, AST mirror comparison of the two time "
+      "directions, truth-table equivalence of the condition of every emitted clause, limit-contract analysis of the callbacks",
+      "Decides encoder/decoder agreement of both encodings (all sites use one polarity convention; the place codec is a "
+      "bijection), time-reversal symmetry, that each clause kind is emitted exactly under its condition with unfiltered "
+      "ranges, and that results never exceed the solution limit (empty for limit <= 0).",
+      "That the logic programs have the intended models is clingo's semantics and is assumed.",
+      "DESIGN.md §3 C09")
+
+claim("C10",
+      "structural consistency rules over the encoder: pairing of BDD and direction, arc table evaluated for both directions, "
+      "Shannon pairing of cofactor and literal, per-place producer/consumer removal, guard equivalence for free inputs",
+      "Decides the internal consistency of the Petri-net encoder and of the two reductions (token moves zero->one for 'up', "
+      "read arcs on the place of the literal's value, each place tested against itself when transitions of a fixed variable "
+      "are removed, free inputs become constants iff the space mentions them).",
+      "Equality of the encoded transition relation with the update functions on all states is not decided (needs BDD evaluation).",
+      "DESIGN.md §3 C10")
+
+claim("C11",
+      "delegation integrity of percolate_space; guard equivalence and removal discipline of the strict propagation loop; case "
+      "table of function_eval; direction of the single-driver test",
+      "Decides that AEON's percolation is returned unfiltered, that strict percolation never overwrites a given value, removes "
+      "constants first, keeps undetermined variables as candidates and re-runs after every new value, and that the single-node "
+      "LDOI / driver queries use exactly that percolation in the right direction. A propagation loop of another shape is "
+      "answered with 'cannot decide' (exit 2), not with a violation.",
+      "That the result is the least fixed point is AEON's responsibility / a property of run-time values.",
+      "DESIGN.md §3 C11")
+
+claim("C12",
+      "def-use chain of every returned set (closure -> transfer_from -> intersect), pairing analysis of seed/set recording, "
+      "closure conditions of the reachability test (iteration domain and skip guards)",
+      "Decides that returned sets are the closures transferred from the very reduced graph they were computed on and "
+      "restricted to the node space, that seeds and sets are recorded pairwise in one order, that sets are recomputed from "
+      "the node's own seeds, and that the reachability test returns only after saturating every variable that has an enabled step.",
+      "Equality with the true attractor relies on AEON; agreement of the fallback as sets is not decided.",
+      "DESIGN.md §3 C12")
+
+claim("C13",
+      "termination-witness recognisers over every loop and call-graph cycle (graph search on the loop-body CFG after deleting "
+      "progress statements; path enumeration for seen-set freshness; provenance for level descent)",
+      "Decides that every for/while loop and every recursion cycle of the package has a structural ranking argument "
+      "(bounded iterable, shrinking container, level or stack worklist with seen set / expanded guard / descent, "
+      "flag-controlled fixpoint whose flag is only cleared together with progress, geometric budget, growing retry key, "
+      "recursion on a strict sub-problem); a loop without witness is reported.",
+      "Finite node sets, acyclicity of the diagram and returning external calls are assumed; no bound on the amount of work is derived.",
+      "DESIGN.md §3 C13")
+
+claim("C17",
+      "comparison of the two regular expressions as syntax trees (character classes must be ASCII complements), structural "
+      "rules on renaming and place prefixes, provenance of explicit symbolic contexts",
+      "Decides only the clause 'name sanitization produces distinct, solver-safe names' and the index-hygiene precondition "
+      "(a Petri net is never built with a symbolic context of a differently ordered network object).",
+      "Isomorphism of diagrams under renaming, reordering, re-encoding or other file formats compares run-time results of "
+      "transformed inputs and is NOT decided by this check.",
+      "DESIGN.md §3 C17")
+
+claim("C19",
+      "order-taint analysis of set iteration (commutativity of loop bodies, interprocedural flow into the canonicalising "
+      "constructor), canonical-order rules for id-assigning loops, constant-seed and shared-state rules",
+      "Decides that no hash-seed dependent iteration order, unseeded randomness, module-level or default-argument shared "
+      "state or shared configuration object can reach node ids, seeds or interventions, and that ids are assigned in "
+      "canonical (sorted) orders.",
+      "clingo and AEON are assumed deterministic for identical call sequences; dict insertion order is not treated as a result.",
+      "DESIGN.md §3 C19")
